@@ -457,6 +457,11 @@ impl<'s> Rw<'s> {
             let (a, _) = br(body.brace_token.span.open());
             let txt = format!("\n{}\n", ls.text);
             self.edit(a, a, &txt, "INJ", &format!("loop #{} contract at {}", k, self.loc(whole)));
+            if !ls.body.trim().is_empty() {
+                let (_, b) = br(body.brace_token.span.open());
+                let txt = format!("\n{}\n", ls.body.trim_end());
+                self.edit(b, b, &txt, "INJ", &format!("loop #{} body prologue", k));
+            }
             Some(ls)
         } else {
             None
@@ -549,8 +554,10 @@ impl<'s> Visit<'s> for Rw<'s> {
                 if let syn::Expr::Reference(_) = &*ix.index {
                     let (a, b) = br(ix.bracket_token.span.open());
                     let (c, d) = br(ix.bracket_token.span.close());
-                    self.edit(a, b, ".get(", "R7", &format!("map index -> get().unwrap() at {}", self.loc(e.span())));
-                    self.edit(c, d, ").unwrap()", "R7", "map index close");
+                    let (xa, _) = br(ix.expr.span());
+                    self.edit(xa, xa, "(*", "R7", &format!("map index m[&k] -> (*m.get(&k).unwrap()) at {}", self.loc(e.span())));
+                    self.edit(a, b, ".get(", "R7", "map index open");
+                    self.edit(c, d, ").unwrap())", "R7", "map index close");
                 }
                 syn::visit::visit_expr_index(self, ix);
             }
